@@ -56,6 +56,7 @@ type Solver struct {
 	Trace      io.Writer
 	crossEvery int
 	nUnsatSeen int
+	sliceVars  []*Term
 }
 
 func NewSolver(timeoutMs, fallbackMs int) (*Solver, error) {
@@ -440,9 +441,15 @@ func (s *Solver) fallback(extraRef string, wantModel bool, intOnly bool) (SatRes
 	buf.WriteString("(check-sat)\n")
 	if wantModel {
 		buf.WriteString("(get-value (")
-		for _, v := range s.pool.vars {
-			if s.declared[v.Name] {
+		if s.sliceVars != nil {
+			for _, v := range s.sliceVars {
 				buf.WriteString(v.Name + " ")
+			}
+		} else {
+			for _, v := range s.pool.vars {
+				if s.declared[v.Name] {
+					buf.WriteString(v.Name + " ")
+				}
 			}
 		}
 		buf.WriteString("))\n")
@@ -520,4 +527,153 @@ func (s *Solver) crossCheck(extraRef string, got SatResult) {
 			}
 		}
 	}
+}
+
+// CheckSlice decides satisfiability of the conjunction of `conj` (and extra) with a freshly built
+// script containing only what those terms reach.  The returned model covers the reachable variables.
+func (s *Solver) CheckSlice(conj []*Term, extra *Term, wantModel bool) (SatResult, map[string]*big.Int) {
+	if extra != nil && extra.IsFalse() {
+		return Unsat, nil
+	}
+	t0 := time.Now()
+	s.Stats.Queries++
+	var lines []string
+	var vars []*Term
+	seen := map[int]bool{}
+	ufSeen := map[string]bool{}
+	var visit func(t *Term)
+	visit = func(root *Term) {
+		type item struct {
+			t    *Term
+			next int
+		}
+		if seen[root.id] || root.Op == "const" {
+			return
+		}
+		stack := []item{{root, 0}}
+		for len(stack) > 0 {
+			top := &stack[len(stack)-1]
+			if top.next < len(top.t.Args) {
+				a := top.t.Args[top.next]
+				top.next++
+				if a.Op != "const" && !seen[a.id] {
+					stack = append(stack, item{a, 0})
+				}
+				continue
+			}
+			x := top.t
+			stack = stack[:len(stack)-1]
+			if seen[x.id] {
+				continue
+			}
+			seen[x.id] = true
+			switch x.Op {
+			case "var":
+				vars = append(vars, x)
+				lines = append(lines, fmt.Sprintf("(declare-const %s %s)", x.Name, sortStr(x.W)))
+			default:
+				if x.Op == "app" && !ufSeen[x.Name] {
+					ufSeen[x.Name] = true
+					lines = append(lines, fmt.Sprintf("(declare-fun %s %s)", x.Name, s.pool.ufs[x.Name]))
+				}
+				lines = append(lines, fmt.Sprintf("(define-fun %s () %s %s)", x.ref(), sortStr(x.W), x.body()))
+			}
+		}
+	}
+	for _, c := range conj {
+		visit(c)
+		lines = append(lines, "(assert "+c.ref()+")")
+	}
+	if extra != nil && !extra.IsTrue() {
+		visit(extra)
+		lines = append(lines, "(assert "+extra.ref()+")")
+	}
+	s.script = lines
+	var res SatResult
+	var model map[string]*big.Int
+	getModel := func() map[string]*big.Int {
+		m := map[string]*big.Int{}
+		const chunk = 256
+		for i := 0; i < len(vars); i += chunk {
+			j := i + chunk
+			if j > len(vars) {
+				j = len(vars)
+			}
+			var sb strings.Builder
+			sb.WriteString("(get-value (")
+			for _, v := range vars[i:j] {
+				sb.WriteString(v.Name)
+				sb.WriteByte(' ')
+			}
+			sb.WriteString("))")
+			s.raw(sb.String())
+			parseModel(s.readSexp(), m)
+		}
+		return m
+	}
+	s.sliceVars = vars
+	tryPrimary := true
+	if s.PreferInt {
+		if r, m, ok := s.fallback("", wantModel, true); ok {
+			res, model = r, m
+			tryPrimary = false
+		}
+	}
+	if tryPrimary {
+		s.raw("(reset)")
+		s.raw(fmt.Sprintf("(set-option :timeout %d)", s.TimeoutMs))
+		s.raw("(set-option :produce-models true)")
+		var sb strings.Builder
+		for _, l := range lines {
+			sb.WriteString(l)
+			sb.WriteByte('\n')
+		}
+		io.WriteString(s.in, sb.String())
+		s.raw("(check-sat)")
+		ans := s.readLine()
+		for strings.HasPrefix(ans, "(error") {
+			s.Stats.Errors++
+			fmt.Fprintln(os.Stderr, "solver error:", ans)
+			ans = "unknown"
+		}
+		switch ans {
+		case "sat":
+			res = Sat
+			if wantModel {
+				model = getModel()
+			}
+		case "unsat":
+			res = Unsat
+		default:
+			res = Unknown
+		}
+		if res == Unknown {
+			s.Stats.Fallbacks++
+			if r, m, ok := s.fallback("", wantModel, false); ok {
+				s.Stats.FallbackOK++
+				res, model = r, m
+			}
+		}
+	}
+	switch res {
+	case Sat:
+		s.Stats.Sat++
+	case Unsat:
+		s.Stats.Unsat++
+		s.nUnsatSeen++
+		if s.crossEvery > 0 && s.nUnsatSeen%s.crossEvery == 0 {
+			s.crossCheck("", res)
+		}
+	default:
+		s.Stats.Unknown++
+	}
+	d := time.Since(t0).Seconds()
+	if dir := os.Getenv("SYMGO_SLOWQ"); dir != "" && d > 0.3 {
+		os.WriteFile(fmt.Sprintf("%s/q%d_%s_%.1fs.smt2", dir, s.Stats.Queries, res, d), []byte(strings.Join(lines, "\n")+"\n(check-sat)\n"), 0o644)
+	}
+	s.Stats.Seconds += d
+	if d > s.Stats.MaxQuerySec {
+		s.Stats.MaxQuerySec = d
+	}
+	return res, model
 }
